@@ -60,7 +60,8 @@ def gen_case(rng, maxops):
             if k == "mkdir":
                 lines.append([40] + p)
             else:
-                lines.append([41, rng.choice([0, 0, 1, 7, 100, 4096, 65536, rng.range(0, 3000)])] + p)
+                lines.append([41, rng.choice([0, 0, 1, 7, 100, 4096, 65536, rng.range(0, 3000)]) if not rng.chance(1, 12)
+                              else rng.choice([(1 << 31) + 1, (1 << 32) + 5, (1 << 31) - 1])] + p)   # sparse files: sizes are size_t, not int
         elif k == "nested":
             deep = sorted(dirs, key=lambda d: -sum(150 if x >= 15 else 1 for x in d))
             p = list(deep[0] if rng.chance(2, 3) else rng.choice(dirs))
